@@ -197,4 +197,21 @@ theorem getIndex_after_setUsedSize (self self' : TranspositionTable) (n key : Bi
   have ok := TT.index_ok n.toNat key.toNat hn hmax key.isLt
   exact ⟨e, by rw [e]; exact ok.1, by rw [e]; exact ok.2⟩
 
+/-- `TranspositionTable::updateTB` hosts an on-demand tablebase only if at least 2 MiB of hash table remain: the size guard
+    regenerated from the source (`ttSize < tbSize + 2*1024*1024` ⇒ no table) leaves, when it lets the generation through,
+    `(ttSize − tbSize) / 16 ≥ 131072` entries for ordinary hash entries — in particular more than the 512 entries that
+    `index_ok` needs, so hash entries and table bytes never share a bucket. -/
+theorem updateTB_leaves_room (ttSize : BitVec 64)
+    (h : updateTB_tooSmall ttSize updateTB_tbSize = false) :
+    updateTB_tbSize = 5242880 ∧ 5242880 + 2097152 ≤ ttSize.toNat ∧ 131072 ≤ (ttSize.toNat - 5242880) / 16 := by
+  have ht : updateTB_tbSize = 5242880 := by decide
+  refine ⟨ht, ?_⟩
+  rw [ht] at h
+  simp only [updateTB_tooSmall, decide_eq_false_iff_not, BitVec.not_lt] at h
+  have h2 : (BitVec.ofInt 64 ((5242880 : Int) + (((2 : Int) * (1024 : Int)) * (1024 : Int)))).toNat = 7340032 := by decide
+  have h3 : 7340032 ≤ ttSize.toNat := by
+    have := BitVec.le_def.mp h
+    omega
+  exact ⟨by omega, by omega⟩
+
 end Bridge.TT
